@@ -1,4 +1,5 @@
 import MicroHttp.Props.C04
+import MicroHttp.Props.Tables
 #print axioms MicroHttp.C04.payload_iff
 #print axioms MicroHttp.C04.payload_error
 #print axioms MicroHttp.C04.payload_rejected_early
@@ -7,3 +8,6 @@ import MicroHttp.Props.C04
 #print axioms MicroHttp.C04.line_too_long
 #print axioms MicroHttp.C04.server_limit
 #print axioms MicroHttp.C04.bad_request_reports
+#print axioms MicroHttp.Tables.buffer_size
+#print axioms MicroHttp.Tables.max_payload_size
+#print axioms MicroHttp.Tables.crlf_len
